@@ -37,8 +37,58 @@ def selftest():
     assert rt.count_trees(rt.canon(g2), "<start>", "1+1+1", cap=5) == 2
 
 
+def nullable_grammar(rnd):
+    """grammars whose nullability is *transitive* and passes through alternatives that repeat a nullable
+    nonterminal (<A> ::= <B><B>), with such nonterminals used several times in a row (x<A><A>y): the shapes on
+    which nullable-set computation and the nullable advance in predict/complete go wrong"""
+    k = rnd.randint(3, 5)
+    nts = ["<n%d>" % i for i in range(k)]
+    g = {"<start>": ["<n0>"]}
+    terms = ["a", "b", "x", "y"]
+    for i in reversed(range(k)):
+        later = nts[i + 1:]
+        alts = []
+        if not later:
+            alts = ["", pick(rnd, terms)] + ([pick(rnd, terms) + pick(rnd, terms)] if chance(rnd, 0.4) else [])
+        else:
+            for _ in range(rnd.randint(1, 3)):
+                n = rnd.randint(1, 3)
+                syms = []
+                for _j in range(n):
+                    x = pick(rnd, later)
+                    syms.append(x)
+                    if chance(rnd, 0.55):
+                        syms.append(x)  # immediate repetition of the same nonterminal
+                if i == 0 or chance(rnd, 0.35):
+                    # terminals around / between the nullable run
+                    pos = rnd.randint(0, len(syms))
+                    syms.insert(pos, pick(rnd, terms))
+                    if chance(rnd, 0.5):
+                        syms.append(pick(rnd, terms))
+                alts.append("".join(syms))
+            if chance(rnd, 0.3):
+                alts.append("")
+            if chance(rnd, 0.3):
+                alts.append(pick(rnd, terms))
+        g[nts[i]] = list(dict.fromkeys(alts))
+    # every nonterminal reachable: chain unreachable ones into <n0>
+    cg = rt.canon(g)
+    R = rt.reach(cg)
+    for i in range(1, k):
+        if nts[i] not in R["<start>"]:
+            g["<n0>"].append(nts[i] + nts[i])
+            cg = rt.canon(g)
+            R = rt.reach(cg)
+    return {kk: g[kk] for kk in ["<start>"] + nts}
+
+
 def generate(rnd, tier):
-    g = gen.acyclic_grammar(rnd, max_nts=5, alphabet=["a", "b", "(", "ab", "c", ")"])
+    if chance(rnd, 0.3):
+        g = nullable_grammar(rnd)
+        if rt.has_unit_cycle(rt.canon(g)):
+            g = gen.acyclic_grammar(rnd, max_nts=5, alphabet=["a", "b", "(", "ab", "c", ")"])
+    else:
+        g = gen.acyclic_grammar(rnd, max_nts=5, alphabet=["a", "b", "(", "ab", "c", ")"])
     cg = rt.canon(g)
     md = rt.min_depths(cg)
     nts = list(g.keys())
